@@ -24,7 +24,7 @@ type c04obs struct {
 
 func runC04(cfg *Config) *Report {
 	rep := newReport()
-	rep.Rule = "pairs of values of the types *GT{A,B *GT; S *string; L []*GT}, *string, []*GT (nil pointers, nil/empty slices, constants equal to a zero-valued placeholder, v an abstraction of u in half the cases) x acyclic start bindings installed with State.Set (var-var chains, partially bound structs) x both placeholder policies (zero-valued default, named via VarCreator) x memory layout (every node fresh / equal sub-values one object and list prefixes re-slices of one backing array); non-trivial = both sides contain a variable or a bound variable is dereferenced; distinct by printed case"
+	rep.Rule = "pairs of values of the types *GT{A,B *GT; S *string; L []*GT}, *string, []*GT (nil pointers, nil/empty slices, constants equal to a zero-valued placeholder, v an abstraction of u in half the cases) x acyclic start bindings installed with State.Set (var-var chains, partially bound structs) x both placeholder policies (zero-valued default, named via VarCreator) ; records with interface-typed fields (variables bound to the untyped nil, typed nils, nested records) in sequences of 2..4 equations; x memory layout (every node fresh / equal sub-values one object and list prefixes re-slices of one backing array); non-trivial = both sides contain a variable or a bound variable is dereferenced; distinct by printed case"
 	cf := newCaseFile("From Coq Require Import List NArith ZArith.\nFrom GMK Require Import Term Unify Reflect GCore CorrBase Corr01 Corr02 Corr04.", "case04", "check04")
 	r := newRand(cfg.Seed)
 	for i := 0; i < cfg.N; i++ {
@@ -55,8 +55,45 @@ func runC04(cfg *Config) *Report {
 		} else {
 			v = gen.val(so, 1+r.Intn(3), -1)
 		}
+		if r.Intn(8) == 0 {
+			// the occurs check through aliased lists: a variable against a record holding a short list and a longer list with the
+			// same leading elements (with `share`: one backing array), the variable occurring only beyond the shorter one
+			tv := gen.varsOf("t")
+			if len(tv) > 0 {
+				x := &gv{K: "tvar", I: pick(r, tv)}
+				elems := []*gv{gen.val("t", r.Intn(2), -1)}
+				for n := 1 + r.Intn(2); n > 0; n-- {
+					if r.Intn(2) == 0 {
+						elems = append(elems, x)
+					} else {
+						elems = append(elems, gen.val("t", r.Intn(2), -1))
+					}
+				}
+				cell := func(l *gv) *gv { return &gv{K: "tstruct", F: []*gv{{K: "tnil"}, {K: "tnil"}, {K: "snil"}, l}} }
+				k := 1 + r.Intn(len(elems)-1)
+				short, long := &gv{K: "slice", F: append([]*gv{}, elems[:k]...)}, &gv{K: "slice", F: elems}
+				so = "t"
+				u = x
+				v = &gv{K: "tstruct", F: []*gv{cell(short), cell(long), {K: "snil"}, {K: "nilslice"}}}
+				if r.Intn(3) == 0 {
+					v = &gv{K: "tstruct", F: []*gv{cell(long), cell(short), {K: "snil"}, {K: "nilslice"}}}
+				}
+			}
+		}
 		if r.Intn(2) == 0 {
 			u, v = v, u
+		}
+		ifaceCase := r.Intn(7) == 0
+		isub := newRand(r.Int63())
+		if ifaceCase && (cfg.Only < 0 || cfg.Only == i) {
+			rep.Evaluations++
+			d, o, cq := runGBCase(rep, i, isub)
+			cf.add(cq)
+			rep.CaseDesc = append(rep.CaseDesc, d)
+			rep.CaseObs = append(rep.CaseObs, o)
+			rep.hist("interface-typed fields, equation sequence")
+			rep.nontrivial(d)
+			continue
 		}
 		if cfg.Only >= 0 && cfg.Only != i {
 			cf.add("CGUnify TNil TNil [] 1 []")
@@ -73,10 +110,16 @@ func runC04(cfg *Config) *Report {
 		if share {
 			desc += " [equal sub-values shared in memory, list prefixes share a backing array]"
 		}
+		begin(i, desc) // a crash (e.g. unbounded recursion through a cyclic binding) names this input
 		var obs [2]c04obs
 		for pol := 0; pol < 2; pol++ {
 			w := newWorld(pol == 1, sorts)
 			w.share = share
+			pre := []*gv{u, v}
+			for _, b := range binds {
+				pre = append(pre, b.v)
+			}
+			w.prebuild(pre...)
 			st := w.st
 			for _, b := range binds {
 				key, _ := st.CastVar(w.ptrs[b.k])
